@@ -241,6 +241,14 @@ SCOPES = {
         mutable=[P("a"), P("a2"), P("a3"), P("d", "a4")],
         init_creates=[P()],
     ),
+    # a rename recorded by the root history while a nested history holds a file with the same relative path as the new name
+    "rennest": dict(
+        fmts=["md5"], files=[P("a"), P("a2"), P("d", "a2")], dirs=[P("d")],
+        init={P("a"): "c1", P("d"): "DIR", P("d", "a2"): "c2"}, contents=["c1", "c2"],
+        roots=[P(), P("d")], fmtchoices=[["md5"]], pats=[()], sf=[],
+        ops=["rename", "create", "verify", "dr", "dronly"], maxgens=5, maxops=6, keepsnap=False,
+        mutable=[P("a"), P("a2")], init_creates=[P()],
+    ),
     # directory-hash verification with its option variants: -h FORMAT, -co, -ro
     "dhopt": dict(
         fmts=["c4", "md5", "xxh64"], files=[P("a"), P("d", "b"), P("d", "e", "c")], dirs=[P("d"), P("d", "e"), P("g")],
